@@ -295,6 +295,8 @@ def check_dense(ctx):
                     end_closed = v
         want_lo, want_hi = (1 if start_open else 0), (1 if end_closed else 0)
         ok = ok and lo_k.count("Add(") == want_lo and hi_k.count("Add(") == want_hi
+        # the adjustment is by exactly one position
+        ok = ok and lo_k.count(",[1]/[1])") + lo_k.count("([1]/[1],") == want_lo and hi_k.count(",[1]/[1])") + hi_k.count("([1]/[1],") == want_hi
         if first or not ok:
             ctx.check(ok, rule, "store|index", s.loc(), "rows come from the anomaly's own interval (left .. right) and columns from its own icolumns", found=f"[{lo_k[:70]} : {hi_k[:70]}, {col_k[:60]}] with start_open={start_open} end_closed={end_closed}", expected="labels[left(+1 iff open on the left) : right(+1 iff closed on the right), icolumns]")
         okv = isinstance(val, Num) and nf_equal(val.nf, lv + 1) and not s.data.get("aug")
